@@ -202,6 +202,10 @@ def wellFormedB (h : Heap) : Bool :=
 def coveredB (h : Heap) : Bool :=
   h.toList.all fun o => o.edges.all fun e => e.inBlacken.isSome || isRoot h e.target
 
+/-- every pointer is traced by `mark()` with op `mark` or points at a rooted box -/
+def markCoveredB (h : Heap) : Bool :=
+  h.toList.all fun o => o.edges.all fun e => decide (e.inMark = some .mark) || isRoot h e.target
+
 /-! ### schema layer -/
 
 structure KindOps where
@@ -255,6 +259,13 @@ def Schema.blackenCovers (S : Schema) (kinds : List Nat) (fields : Nat → List 
     (exempt : List (Nat × Nat × Nat)) : Bool :=
   kinds.all fun k => (fields k).all fun ft => ft.2.all fun tk =>
     exempt.contains (k, ft.1, tk) || (lookupOp (S k).blackenOps ft.1 tk == some .blacken)
+
+/-- like `blackenCovers`, for the `mark()` bodies: every possible pointer is `mark`ed by the owner's `mark()`,
+unless exempt -/
+def Schema.markCovers (S : Schema) (kinds : List Nat) (fields : Nat → List (Nat × List Nat))
+    (exempt : List (Nat × Nat × Nat)) : Bool :=
+  kinds.all fun k => (fields k).all fun ft => ft.2.all fun tk =>
+    exempt.contains (k, ft.1, tk) || (lookupOp (S k).markOps ft.1 tk == some .mark)
 
 /-- checker for `WellTyped kinds fields h` -/
 def wellTypedB (kinds : List Nat) (fields : Nat → List (Nat × List Nat)) (h : RawHeap) : Bool :=
